@@ -1,16 +1,22 @@
 import PQ.Lemmas.CrashLemmas
-import PQ.Lemmas.BulkProps
-import PQ.Props.C04
 import PQ.Model.CrashCb
 /-!
 # Crash points inside user callbacks (`PQ/Model/CrashCb.lean`): every crash state is well-formed
+
+* `cb_not_fires`, `cb_stepCb_zero`, `cb_stepCb_ok` — when the fuse does not fire, `stepCb` is the plain `step`;
+* `cb_crashedNew_only_ctor` — `crashedNew` is reported by `from_iter` only;
+* `cbw_crash_state_wf` / `cb_crash_state_wf` — **every crash state is well-formed**, also when the panicking setter /
+  predicate has first stored an arbitrary priority through its `&mut P` (`stepCbW`);
+* `cb_no_model_fault` — the operation with a panicking callback performs no faulty access of its own.
+
+Everything is stated for the write-then-panic generalisation `stepCbW k w` and specialised to `stepCb k = stepCbW k none`.
 -/
 set_option linter.unusedSimpArgs false
 set_option linter.unusedSectionVars false
 set_option linter.unusedVariables false
 namespace PQ
 open PQ.Crash PQ.Arith
-variable {P : Type} [LT P] [DecidableLT P] [LE P] [Std.IsLinearPreorder P] [Std.LawfulOrderLT P]
+variable {P : Type} [LT P] [DecidableLT P]
 
 /-! ## `liftStep` -/
 
@@ -49,10 +55,40 @@ theorem cb_findMax_frame {s s' : Store P} {r : Option Nat} (h : DQ.findMax s = .
 
 /-! ## (2) when the fuse does not fire `stepCb` is the plain operation -/
 
-/-- `stepCb` on `extend`, unfolded -/
-theorem cb_stepCb_extend (k : Nat) (q : Q P) (lo : Nat) (xs : Array (Item × P)) :
-    stepCb k q (.extend lo xs) =
-      if 1 ≤ k ∧ k ≤ xs.size + 1 then
+/-! ## the written store -/
+section
+variable [LE P] [Std.IsLinearPreorder P] [Std.LawfulOrderLT P]
+
+@[simp] theorem cb_writeSlot_none (s : Store P) (i : Nat) : cbWriteSlot s i none = s := rfl
+
+@[simp] theorem cb_writePos_none (s : Store P) (pos : Nat) : cbWritePos s pos none = s := by
+  unfold cbWritePos; split <;> rfl
+
+@[simp] theorem cb_writeKey_none (s : Store P) (key : Nat) : cbWriteKey s key none = s := by
+  unfold cbWriteKey; split <;> rfl
+
+/-- overwriting a priority in place keeps the store well-formed (it does not keep it ordered) -/
+theorem cb_writeSlot_wf {s : Store P} (h : s.WF) (i : Nat) (w : Option P) : (cbWriteSlot s i w).WF := by
+  cases w with
+  | none => exact h
+  | some p => exact Store.wf_of_map_update h (IMap.size_setPrio _ _ _) (h.nodup.setPrio i p)
+
+theorem cb_writePos_wf {s : Store P} (h : s.WF) (pos : Nat) (w : Option P) : (cbWritePos s pos w).WF := by
+  unfold cbWritePos; split
+  · exact cb_writeSlot_wf h _ w
+  · exact h
+
+theorem cb_writeKey_wf {s : Store P} (h : s.WF) (key : Nat) (w : Option P) : (cbWriteKey s key w).WF := by
+  unfold cbWriteKey; split
+  · exact cb_writeSlot_wf h _ w
+  · exact h
+
+end
+
+/-- `stepCbW` on `extend`, unfolded -/
+theorem cb_stepCb_extend (k : Nat) (w : Option P) (q : Q P) (lo : Nat) (xs : Array (Item × P)) :
+    stepCbW k w q (.extend lo xs) =
+      if lo < capLimit ∧ 1 ≤ k ∧ k ≤ xs.size + 1 then
         if (if lo ≠ 0 then betterToRebuild q.s.size lo else false) = true then
           .error (.crashed { q with s := q.s.extend (xs.extract 0 (k - 1)) })
         else
@@ -62,20 +98,22 @@ theorem cb_stepCb_extend (k : Nat) (q : Q P) (lo : Nat) (xs : Array (Item × P))
       else liftStep q (.extend lo xs) := rfl
 
 /-- with the fuse off (`k = 0`) `stepCb` IS the plain operation — for every queue and every operation -/
-theorem cb_stepCb_zero (q : Q P) (op : Op P) : stepCb 0 q op = liftStep q op := by
-  cases op <;> simp [stepCb]
+theorem cbw_stepCb_zero (w : Option P) (q : Q P) (op : Op P) : stepCbW 0 w q op = liftStep q op := by
+  cases op <;> simp [stepCbW]
+
+theorem cb_stepCb_zero (q : Q P) (op : Op P) : stepCb 0 q op = liftStep q op := cbw_stepCb_zero none q op
 
 /-- a normal return of `stepCb` is the return of the plain `step` (no hypothesis) -/
-theorem cb_stepCb_ok {k : Nat} {q : Q P} {op : Op P} {r : Q P × Out P} (h : stepCb k q op = .ok r) :
-    step q op = .ok r := by
+theorem cbw_stepCb_ok {k : Nat} {w : Option P} {q : Q P} {op : Op P} {r : Q P × Out P}
+    (h : stepCbW k w q op = .ok r) : step q op = .ok r := by
   cases op with
   | changePriorityBy key g =>
-    simp only [stepCb] at h
+    simp only [stepCbW] at h
     split at h
     · cases h
     · exact cb_liftStep_ok h
   | popFrontIf f =>
-    simp only [stepCb] at h
+    simp only [stepCbW] at h
     split at h
     · split at h
       · split at h
@@ -86,7 +124,7 @@ theorem cb_stepCb_ok {k : Nat} {q : Q P} {op : Op P} {r : Q P × Out P} (h : ste
         · cases h
     · exact cb_liftStep_ok h
   | popBackIf f =>
-    simp only [stepCb] at h
+    simp only [stepCbW] at h
     split at h
     · split at h
       · exact cb_liftStep_ok h
@@ -105,8 +143,8 @@ theorem cb_stepCb_ok {k : Nat} {q : Q P} {op : Op P} {r : Q P × Out P} (h : ste
       · simp only [if_true] at h
         cases h
     · exact cb_liftStep_ok h
-  | fromIter xs =>
-    simp only [stepCb] at h
+  | fromIter lo xs =>
+    simp only [stepCbW] at h
     split at h
     · cases h
     · exact cb_liftStep_ok h
@@ -115,19 +153,20 @@ theorem cb_stepCb_ok {k : Nat} {q : Q P} {op : Op P} {r : Q P × Out P} (h : ste
 /-! ## (3) when the fuse fires -/
 
 /-- **the fuse does not fire** when `k = 0` or the operation performs fewer than `k` callbacks (no hypothesis on the queue) -/
-theorem cb_not_fires {k : Nat} {q : Q P} {op : Op P} (h : cbCount q op < k ∨ k = 0) : stepCb k q op = liftStep q op := by
+theorem cbw_not_fires {k : Nat} {w : Option P} {q : Q P} {op : Op P} (h : cbCount q op < k ∨ k = 0) :
+    stepCbW k w q op = liftStep q op := by
   by_cases hk0 : k = 0
-  · subst hk0; exact cb_stepCb_zero q op
+  · subst hk0; exact cbw_stepCb_zero w q op
   have h : cbCount q op < k := by omega
   obtain ⟨kind, s⟩ := q
   cases op with
   | changePriorityBy key g =>
-    simp only [stepCb]
+    simp only [stepCbW]
     rw [if_neg]
     rintro ⟨rfl, hs⟩
     simp [cbCount, hs] at h
   | popFrontIf f =>
-    simp only [stepCb]
+    simp only [stepCbW]
     by_cases hk : k = 1
     · subst hk
       have h0 : s.size = 0 := by
@@ -138,7 +177,7 @@ theorem cb_not_fires {k : Nat} {q : Q P} {op : Op P} (h : cbCount q op < k ∨ k
       cases kind <;> simp [h0, DQ.findMin]
     · rw [if_neg hk]
   | popBackIf f =>
-    simp only [stepCb]
+    simp only [stepCbW]
     by_cases hk : k = 1
     · subst hk
       cases kind with
@@ -149,17 +188,247 @@ theorem cb_not_fires {k : Nat} {q : Q P} {op : Op P} (h : cbCount q op < k ∨ k
           split at h
           · assumption
           · omega
-        simp [DQ.findMax_empty h0]
+        simp [DQ.findMax, h0, pure, Except.pure]
     · rw [if_neg hk]
   | extend lo xs =>
     rw [cb_stepCb_extend, if_neg]
     simp only [cbCount] at h
-    omega
-  | fromIter xs =>
-    simp only [stepCb]
+    split at h <;> omega
+  | fromIter lo xs =>
+    simp only [stepCbW]
     rw [if_neg]
     simp only [cbCount] at h
-    omega
+    split at h <;> omega
   | _ => rfl
+
+theorem cb_stepCb_ok {k : Nat} {q : Q P} {op : Op P} {r : Q P × Out P} (h : stepCb k q op = .ok r) :
+    step q op = .ok r := cbw_stepCb_ok h
+
+theorem cb_not_fires {k : Nat} {q : Q P} {op : Op P} (h : cbCount q op < k ∨ k = 0) : stepCb k q op = liftStep q op :=
+  cbw_not_fires h
+
+/-- **`crashedNew` only for constructors**: the only operation whose callback crash drops a fresh queue is `from_iter` -/
+theorem cbw_crashedNew_only_ctor {k : Nat} {w : Option P} {q : Q P} {op : Op P}
+    (h : stepCbW k w q op = .error .crashedNew) : ∃ lo xs, op = .fromIter lo xs := by
+  cases op with
+  | changePriorityBy key g =>
+    simp only [stepCbW] at h
+    split at h
+    · cases h
+    · exact absurd h cb_liftStep_crashedNew
+  | popFrontIf f =>
+    simp only [stepCbW] at h
+    split at h
+    · split at h
+      · split at h
+        · exact absurd h cb_liftStep_crashedNew
+        · cases h
+      · split at h
+        · exact absurd h cb_liftStep_crashedNew
+        · cases h
+    · exact absurd h cb_liftStep_crashedNew
+  | popBackIf f =>
+    simp only [stepCbW] at h
+    split at h
+    · split at h
+      · exact absurd h cb_liftStep_crashedNew
+      · split at h
+        · cases h
+        · exact absurd h cb_liftStep_crashedNew
+        · cases h
+    · exact absurd h cb_liftStep_crashedNew
+  | extend lo xs =>
+    rw [cb_stepCb_extend] at h
+    split at h
+    · generalize (if lo ≠ 0 then betterToRebuild q.s.size lo else false) = b at h
+      cases b
+      · simp only [Bool.false_eq_true, if_false] at h
+        split at h <;> cases h
+      · simp only [if_true] at h
+        cases h
+    · exact absurd h cb_liftStep_crashedNew
+  | fromIter lo xs => exact ⟨lo, xs, rfl⟩
+  | _ => exact absurd (by simpa [stepCbW] using h) cb_liftStep_crashedNew
+
+theorem cb_crashedNew_only_ctor {k : Nat} {q : Q P} {op : Op P} (h : stepCb k q op = .error .crashedNew) :
+    ∃ lo xs, op = .fromIter lo xs := cbw_crashedNew_only_ctor h
+
+/-! ## (4) the crash state is well-formed -/
+variable [LE P] [Std.IsLinearPreorder P] [Std.LawfulOrderLT P]
+
+/-- **every callback crash state is well-formed** — also when the panicking setter / predicate first stored an arbitrary
+priority through its `&mut P` (`w = some p`): then the priority sits in the slot without any re-sift, so the queue is in
+general no longer ordered, but the index tables and the key set are untouched.  (`Op.Legal` is not needed: no callback
+returns.) -/
+theorem cbw_crash_state_wf {q q' : Q P} {op : Op P} (k : Nat) (w : Option P) (hq : QWF q) :
+    stepCbW k w q op = .error (.crashed q') → QWF q' := by
+  intro h
+  obtain ⟨kind, s⟩ := q
+  have hs : s.WF := hq
+  cases op with
+  | changePriorityBy key g =>
+    simp only [stepCbW] at h
+    split at h
+    · cases h; exact cb_writeKey_wf hs key w
+    · exact absurd h cb_liftStep_crashed
+  | popFrontIf f =>
+    simp only [stepCbW] at h
+    split at h
+    · cases kind with
+      | pq =>
+        simp only at h
+        split at h
+        · exact absurd h cb_liftStep_crashed
+        · cases h; exact cb_writePos_wf hs 0 w
+      | dpq =>
+        simp only at h
+        split at h
+        · exact absurd h cb_liftStep_crashed
+        · cases h; exact cb_writePos_wf hs _ w
+    · exact absurd h cb_liftStep_crashed
+  | popBackIf f =>
+    simp only [stepCbW] at h
+    split at h
+    · cases kind with
+      | pq => exact absurd h cb_liftStep_crashed
+      | dpq =>
+        simp only at h
+        split at h
+        · cases h
+        · exact absurd h cb_liftStep_crashed
+        · rename_i s' _ hfm
+          cases h
+          obtain ⟨n, _, rfl, _⟩ := cb_findMax_frame hfm
+          exact cb_writePos_wf ((Store.tick_TWF).2 hs) _ w
+    · exact absurd h cb_liftStep_crashed
+  | extend lo xs =>
+    rw [cb_stepCb_extend] at h
+    by_cases hk : lo < capLimit ∧ 1 ≤ k ∧ k ≤ xs.size + 1
+    · rw [if_pos hk] at h
+      by_cases hr : (if lo ≠ 0 then betterToRebuild s.size lo else false) = true
+      · rw [if_pos hr] at h
+        cases h
+        exact Store.wf_extend hs _
+      · rw [if_neg hr] at h
+        cases kind with
+        | pq =>
+          obtain ⟨s', h1, h2, _⟩ := PQ.MaxQ.pushAll_safe (xs.extract 0 (k - 1)).toList hs
+          simp only [pushAllK, h1] at h
+          cases h; exact h2
+        | dpq =>
+          obtain ⟨s', h1, h2, _⟩ := PQ.DQ.pushAll_safe hs (xs.extract 0 (k - 1)).toList
+          simp only [pushAllK, h1] at h
+          cases h; exact h2
+    · rw [if_neg hk] at h
+      exact absurd h cb_liftStep_crashed
+  | fromIter lo xs =>
+    simp only [stepCbW] at h
+    split at h
+    · cases h
+    · exact absurd h cb_liftStep_crashed
+  | _ => exact absurd (by simpa [stepCbW] using h) cb_liftStep_crashed
+
+/-- **the crash state of a callback that panics on entry is well-formed** -/
+theorem cb_crash_state_wf {q q' : Q P} {op : Op P} (k : Nat) (hq : QWF q) (hl : op.Legal) :
+    stepCb k q op = .error (.crashed q') → QWF q' :=
+  cbw_crash_state_wf k none hq
+
+/-- a setter that panics on entry (nothing written) leaves the queue of `change_priority_by` exactly as it was -/
+theorem cb_crash_unchanged_setter {q q' : Q P} {k : Nat} {key : Nat} {g : P → P}
+    (h : stepCb k q (.changePriorityBy key g) = .error (.crashed q')) : q' = q := by
+  simp only [stepCb, stepCbW] at h
+  split at h
+  · cases h; simp
+  · exact absurd h cb_liftStep_crashed
+
+/-- a predicate that panics on entry (nothing written) leaves the queue of `pop_if` / `pop_min_if` exactly as it was
+(`pop_max_if` has spent one comparison in `find_max`: unchanged up to the ghost counter, `cb_findMax_frame`) -/
+theorem cb_crash_unchanged_front {q q' : Q P} {k : Nat} {f : Item → P → Bool × Item × P}
+    (h : stepCb k q (.popFrontIf f) = .error (.crashed q')) : q' = q := by
+  obtain ⟨kind, s⟩ := q
+  simp only [stepCb, stepCbW] at h
+  split at h
+  · cases kind with
+    | pq =>
+      simp only at h
+      split at h
+      · exact absurd h cb_liftStep_crashed
+      · cases h; simp
+    | dpq =>
+      simp only at h
+      split at h
+      · exact absurd h cb_liftStep_crashed
+      · cases h; simp
+  · exact absurd h cb_liftStep_crashed
+
+/-! ## (5) no fault of the model inside an operation whose callback panics -/
+
+/-- the operation with a panicking callback performs no faulty access of its own, before the panic or during unwinding -/
+theorem cbw_no_model_fault {q : Q P} {op : Op P} (k : Nat) (w : Option P) (hq : QWF q) (hl : op.Legal) :
+    ∀ f, stepCbW k w q op ≠ .error (.fault f) := by
+  intro f h
+  obtain ⟨q1, o1, hstep, _⟩ := hist_step_safe hq hl
+  have hlift : ∀ f, liftStep q op ≠ .error (.fault f) := by
+    intro f hf; unfold liftStep at hf; rw [hstep] at hf; cases hf
+  obtain ⟨kind, s⟩ := q
+  have hs : s.WF := hq
+  cases op with
+  | changePriorityBy key g =>
+    simp only [stepCbW] at h
+    split at h
+    · cases h
+    · exact hlift f h
+  | popFrontIf p =>
+    simp only [stepCbW] at h
+    split at h
+    · split at h
+      · split at h
+        · exact hlift f h
+        · cases h
+      · split at h
+        · exact hlift f h
+        · cases h
+    · exact hlift f h
+  | popBackIf p =>
+    simp only [stepCbW] at h
+    split at h
+    · cases kind with
+      | pq => exact hlift f h
+      | dpq =>
+        simp only at h
+        split at h
+        · rename_i f' hfm
+          obtain ⟨s', r, hfm', _⟩ := DQ.findMax_safe hs
+          rw [hfm'] at hfm; cases hfm
+        · exact hlift f h
+        · cases h
+    · exact hlift f h
+  | extend lo xs =>
+    rw [cb_stepCb_extend] at h
+    by_cases hk : lo < capLimit ∧ 1 ≤ k ∧ k ≤ xs.size + 1
+    · rw [if_pos hk] at h
+      by_cases hr : (if lo ≠ 0 then betterToRebuild s.size lo else false) = true
+      · rw [if_pos hr] at h; cases h
+      · rw [if_neg hr] at h
+        cases kind with
+        | pq =>
+          obtain ⟨s', h1, h2, _⟩ := PQ.MaxQ.pushAll_safe (xs.extract 0 (k - 1)).toList hs
+          simp only [pushAllK, h1] at h
+          cases h
+        | dpq =>
+          obtain ⟨s', h1, h2, _⟩ := PQ.DQ.pushAll_safe hs (xs.extract 0 (k - 1)).toList
+          simp only [pushAllK, h1] at h
+          cases h
+    · rw [if_neg hk] at h
+      exact hlift f h
+  | fromIter lo xs =>
+    simp only [stepCbW] at h
+    split at h
+    · cases h
+    · exact hlift f h
+  | _ => exact hlift f (by simpa [stepCbW] using h)
+
+theorem cb_no_model_fault {q : Q P} {op : Op P} (k : Nat) (hq : QWF q) (hl : op.Legal) :
+    ∀ f, stepCb k q op ≠ .error (.fault f) := cbw_no_model_fault k none hq hl
 
 end PQ
